@@ -20,10 +20,10 @@ def showRes1 (r : Except String (List GRat)) : String :=
   | .ok l => "{\"ok\":" ++ showList l ++ "}"
   | .error e => "{\"err\":\"" ++ e ++ "\"}"
 
-def handle (j : Json) : E String := do
-  let id := (j.getObjVal? "id").toOption.getD .null
+/-- one observation on the operator `A` (`D` = its represented matrix, computed once per line):
+`{"call":"diag"|"trace"|"exactdiag","k":…,"alg":…,"bs":…}` ↦ `{"code":…,"spec":…}` -/
+def answerItem (A : Op GRat) (D : Option (MatV GRat)) (j : Json) : E String := do
   let call ← jStr ((j.getObjVal? "call").toOption.getD .null)
-  let A ← jOp ((j.getObjVal? "op").toOption.getD .null)
   let bs : Nat := match j.getObjVal? "bs" with
     | .ok v => (v.getNat?).toOption.getD 100
     | _ => 100
@@ -34,28 +34,48 @@ def handle (j : Json) : E String := do
   let k : Int := match j.getObjVal? "k" with
     | .ok v => (v.getInt?).toOption.getD 0
     | _ => 0
-  let cl := A.clauses ++ A.diagClauses
-  let sq := A.rows == A.cols
-  let D := A.den
-  let absD := A.absOp.den
-  let bound := maxAbsMat A.rows A.cols absD.f
-  let tb : Rat := if sq then (Op.traceSpec absD.f A.rows).re else 0
-  let pre := s!"\"id\":{id.compress},\"rows\":{A.rows},\"cols\":{A.cols},\"dtype\":\"{A.dtype.toString}\",\"wf\":{A.wf},\"square\":{sq},\"clauses\":{showStrs cl},\"absbound\":{bound},\"tracebound\":{showQ tb}"
+  let specD : String := match D with
+    | some D => ",\"spec\":" ++ showList (Op.diagK D.f A.rows k)
+    | none => ""
   match call with
-  | "diag" =>
-      let code := Op.diagCode bs alg A k
-      let spec := Op.diagK D.f A.rows k
-      pure ("{" ++ pre ++ s!",\"code\":{showRes1 code},\"spec\":{showList spec}" ++ "}")
-  | "exactdiag" =>
-      let code := Op.exactDiag bs A k
-      let spec := Op.diagK D.f A.rows k
-      pure ("{" ++ pre ++ s!",\"code\":{showRes1 (.ok code)},\"spec\":{showList spec}" ++ "}")
+  | "diag" => pure ("{\"code\":" ++ showRes1 (Op.diagCode bs alg A k) ++ specD ++ "}")
+  | "exactdiag" => pure ("{\"code\":" ++ showRes1 (.ok (Op.exactDiag bs A k)) ++ specD ++ "}")
   | "trace" =>
       let code := match Op.traceCode bs alg A with
         | .ok t => "{\"ok\":" ++ showZ t ++ "}"
         | .error e => "{\"err\":\"" ++ e ++ "\"}"
-      let spec := Op.traceSpec D.f A.rows
-      pure ("{" ++ pre ++ s!",\"code\":{code},\"spec\":{showZ spec}" ++ "}")
+      let specT : String := match D with
+        | some D => ",\"spec\":" ++ showZ (Op.traceSpec D.f A.rows)
+        | none => ""
+      pure ("{\"code\":" ++ code ++ specT ++ "}")
   | c => throw s!"unknown call {c}"
+
+/-- a line is either one observation (`"call"` ≠ `"batch"`; answer has `code`, `spec` at top level)
+or a batch of observations on ONE operator (`"call":"batch","items":[…]`; answer has `results`) -/
+def handle (j : Json) : E String := do
+  let id := (j.getObjVal? "id").toOption.getD .null
+  let call ← jStr ((j.getObjVal? "call").toOption.getD .null)
+  let A ← jOp ((j.getObjVal? "op").toOption.getD .null)
+  let cl := A.clauses ++ A.diagClauses
+  let sq := A.rows == A.cols
+  -- "nospec": only the code model is evaluated (large operators: `den` of a product costs n⁴)
+  let nospec := match j.getObjVal? "nospec" with
+    | .ok (.bool b) => b
+    | _ => false
+  let pre0 := s!"\"id\":{id.compress},\"rows\":{A.rows},\"cols\":{A.cols},\"dtype\":\"{A.dtype.toString}\",\"wf\":{A.wf},\"square\":{sq},\"clauses\":{showStrs cl},\"cls\":\"{A.className}\",\"drule\":\"{A.diagRuleClass}\",\"trule\":\"{A.traceRuleClass}\""
+  let D : Option (MatV GRat) := if nospec then none else some A.den
+  let pre := if nospec then pre0 else
+    let absD := A.absOp.den
+    let bound := maxAbsMat A.rows A.cols absD.f
+    let tb : Rat := if sq then (Op.traceSpec absD.f A.rows).re else 0
+    pre0 ++ s!",\"absbound\":{bound},\"tracebound\":{showQ tb}"
+  if call == "batch" then
+    let items ← jArr ((j.getObjVal? "items").toOption.getD .null)
+    let rs ← items.toList.mapM (answerItem A D)
+    pure ("{" ++ pre ++ ",\"results\":[" ++ ",".intercalate rs ++ "]}")
+  else
+    let r ← answerItem A D j
+    -- splice the fields of the single answer into the top-level object
+    pure ("{" ++ pre ++ "," ++ (r.drop 1).toString)
 
 def main : IO Unit := driverMain handle
